@@ -35,7 +35,18 @@ def _impl(*args):
         raise celpy.CELEvalError("host raises the CEL error instead of returning it")
     if b == "raises-KeyError":
         raise KeyError("host key error")
+    if b == "raises-ValueError-subclass":      # a ValueError all the same: json.loads, bytes.decode, int() of the host's own classes
+        if len(args) % 2:
+            raise UnicodeDecodeError("utf-8", b"\xff", 0, 1, "host decode error")
+        import json
+        json.loads("{bad")
+    if b == "raises-TypeError-subclass":
+        raise HostBadArgument("host type error of the host's own class")
     raise AssertionError(b)
+
+
+class HostBadArgument(TypeError):
+    pass
 
 
 def f(*args):                      # module-level def in the harness module
@@ -105,7 +116,7 @@ def _closure():
 
 KINDS = ["module-def", "main-def", "nested-def", "lambda", "callable-object", "partial", "bound-method", "wraps-wrapper", "exec-defined"]
 STYLES = ["dict", "list"]
-BEHAVIOURS = ["value", "returns-error", "raises-ValueError", "raises-TypeError", "raises-CELEvalError", "raises-KeyError"]
+BEHAVIOURS = ["value", "returns-error", "raises-ValueError", "raises-TypeError", "raises-CELEvalError", "raises-KeyError", "raises-ValueError-subclass", "raises-TypeError-subclass"]
 
 # shape: (text, [call sites...]) ; a call site = (args as python ints or nested site index, reach)
 # variables a=1, b=2, c=3, t=true
